@@ -152,7 +152,12 @@ def print_rules_structure(a):
                     probs1.append("a clause does not speak about this type's variable and this property")
                 many = f"(> {ex.len_of(vals)} 1)" if vals is not None and vals[0] == "opaque" else "false"
                 parts.append(many if f2[0] == EXPECTED["in"] else f"(not {many})")
-        if outer:
+        # everything emitted is emitted while visiting an entry of the rule map GIVEN (a loop over a re-keyed / sorted / filtered copy is
+        # not the documented structure: entries may have been merged or dropped on the way)
+        in_outer = {id(e) for n in range(len(outer)) for i, e in apps if idx[n] <= i < idx[n + 1]} if outer else set()
+        if any(id(e) not in in_outer and _fmt(e[2][1] if len(e[2]) > 1 else None) is not None for i, e in apps):
+            probs1.append("rule text emitted outside a visit of the rule map's own entries")
+        if outer or probs1:
             bad1.append(f"(and {pc_term(p.pc)} (not {'false' if probs1 else '(and true ' + ' '.join(parts) + ')'}))")
             if probs1 and os.environ.get("VERIF_DEBUG"):
                 print("print_rules:", probs1[:3])
@@ -187,6 +192,8 @@ def replay_rulegen_roundtrip(a, homogeneous_only=True):
                                                              "b": {"Type": "AWS::S3::Bucket", "Properties": {"Name": "x y"}},
                                                              "n": {"Type": "AWS::SNS::Topic"}}},
     }
+    templates["same text, different kind"] = {"Resources": {"v1": {"Type": "AWS::EC2::Volume", "Properties": {"Size": "500", "On": "true"}},
+                                                          "v2": {"Type": "AWS::EC2::Volume", "Properties": {"Size": 500, "On": True}}}}
     templates["floats and negative numbers"] = {"Resources": {"r": {"Type": "AWS::R::S", "Properties": {"Weight": 2.0, "T": 1.5, "N": -3}}}}
     if not homogeneous_only:
         templates["two of one type, DIFFERENT property sets"] = {"Resources": {"a": {"Type": "AWS::X::Y", "Properties": {"Size": 500, "Enc": True}},
